@@ -131,7 +131,8 @@ TypeOK ==
 \* (invariants are phrased over node ids <<length, value>> so that TLC converts each
 \*  path once per state; IdPrefix is IsPrefixOf on ids)
 IdPrefix(n, m) == n[1] <= m[1] /\ m[2] % (2^n[1]) = n[2]
-PLevels(P) == [k \in 1..Depth |-> {y % (2^k) : y \in P}]
+\* (level 0 is the root: it lies on the path to every input)
+PLevels(P) == [k \in 0..Depth |-> {y % (2^k) : y \in P}]
 
 PrefixFree ==
   LET K == NodeIdsOf(prefixes)
